@@ -139,29 +139,46 @@ impl G for PreciseDecimal {
 }
 impl G for NonFungibleLocalId {
     fn g(rng: &mut Rng, _: &mut i32) -> Self {
-        match wire::gen_custom(rng, Flavour::Scrypto, 0xc0) {
-            wire::RV::Custom(k, b) => match ScryptoF::custom_from_rv(k, &b) {
-                Some(ScryptoCustomValue::NonFungibleLocalId(id)) => id,
-                _ => unreachable!(),
-            },
-            _ => unreachable!(),
+        // the shared generator also emits near-miss (invalid) ids: keep the expressible ones
+        for _ in 0..64 {
+            if let wire::RV::Custom(k, b) = wire::gen_custom(rng, Flavour::Scrypto, 0xc0) {
+                if let Some(ScryptoCustomValue::NonFungibleLocalId(id)) = ScryptoF::custom_from_rv(k, &b) {
+                    return id;
+                }
+            }
+        }
+        NonFungibleLocalId::integer(rng.u64())
+    }
+}
+/// A generated Scrypto tree that is expressible as a value of the code under test.
+fn valid_scrypto_tree(rng: &mut Rng, mut make: impl FnMut(&mut Rng) -> wire::RV) -> (wire::RV, ScryptoValue) {
+    for _ in 0..64 {
+        let t = make(rng);
+        if let Some(v) = to_real::<ScryptoF>(&t) {
+            return (t, v);
         }
     }
+    let t = wire::RV::Tuple(vec![]);
+    let v = ScryptoValue::Tuple { fields: vec![] };
+    (t, v)
 }
 /// an arbitrary well-formed Scrypto value embedded as raw bytes
 impl G for ScryptoOwnedRawValue {
     fn g(rng: &mut Rng, fuel: &mut i32) -> Self {
         *fuel -= 4;
         let d = 1 + rng.usize_below(5);
-        let t = if rng.bool() {
-            wire::gen_chain(rng, Flavour::Scrypto, d)
-        } else {
-            let mut b = 10usize;
-            wire::gen_value(rng, Flavour::Scrypto, d, &mut b)
-        };
+        let (t, _) = valid_scrypto_tree(rng, |rng| {
+            if rng.bool() {
+                wire::gen_chain(rng, Flavour::Scrypto, d)
+            } else {
+                let mut b = 10usize;
+                wire::gen_value(rng, Flavour::Scrypto, d, &mut b)
+            }
+        });
         let mut body = vec![];
         wire::write_body(&t, &mut body, &mut None);
-        ScryptoOwnedRawValue::new_from_valid_owned_value_body(vk::<ScryptoF>(t.kind()).unwrap(), body)
+        let kind = vk::<ScryptoF>(t.kind()).unwrap_or(ValueKind::Tuple);
+        ScryptoOwnedRawValue::new_from_valid_owned_value_body(kind, body)
     }
 }
 
@@ -449,10 +466,12 @@ pub fn roster() -> Vec<Box<dyn TypedCase>> {
 impl G for ScryptoValue {
     fn g(rng: &mut Rng, fuel: &mut i32) -> Self {
         *fuel -= 4;
-        let mut b = 12usize;
         let d = 1 + rng.usize_below(6);
-        let t = wire::gen_value(rng, Flavour::Scrypto, d, &mut b);
-        to_real::<ScryptoF>(&t).unwrap()
+        valid_scrypto_tree(rng, |rng| {
+            let mut b = 12usize;
+            wire::gen_value(rng, Flavour::Scrypto, d, &mut b)
+        })
+        .1
     }
 }
 
@@ -490,6 +509,8 @@ pub fn replay_typed(detail: &serde_json::Value, sh: &mut Shard) {
 // Fault-contained probes: decodes whose failure mode is memory corruption are run in a child
 // process (`rv-sbor __child <probe>`), so that a crash is an observation and not the end of the run.
 // ---------------------------------------------------------------------------------------------
+/// Run only when the decode/encode probes pass (i.e. these element types take the per-element path).
+pub const DEPTH_PROBES: [&str; 3] = ["depth:Vec<Box<u8>>", "depth:Vec<Rc<i8>>", "depth:Vec<RefCell<u8>>"];
 pub const CHILD_PROBES: [&str; 8] = [
     "decode:Vec<Box<u8>>",
     "decode:Vec<Rc<u8>>",
@@ -550,9 +571,25 @@ pub fn child_main(name: &str) -> ! {
             let v = scrypto_decode::<Vec<Box<u16>>>(&p).unwrap();
             println!("OK {} {}", v.len(), v.iter().map(|x| **x as i64).sum::<i64>());
         }
+        "depth:Vec<Box<u8>>" => depth_probe((0..N_ELEMS).map(|_| Box::new(0x41u8)).collect::<Vec<_>>()),
+        "depth:Vec<Rc<i8>>" => depth_probe((0..N_ELEMS).map(|_| Rc::new(0x41i8)).collect::<Vec<_>>()),
+        "depth:Vec<RefCell<u8>>" => depth_probe((0..N_ELEMS).map(|_| RefCell::new(0x41u8)).collect::<Vec<_>>()),
         _ => println!("UNKNOWN"),
     }
     std::process::exit(0)
+}
+
+/// Child: typed decode / typed encode / Value decode verdicts at limits 1..=3 for a flat array (wire depth 2).
+fn depth_probe<T: ScryptoEncode + ScryptoDecode + PartialEq>(v: T) {
+    let p = scrypto_encode(&v).unwrap();
+    let mut out = String::from("DEPTH");
+    for d in 1..=3usize {
+        let t = scrypto_decode_with_depth_limit::<T>(&p, d).map(|x| x == v);
+        let e = scrypto_encode_with_depth_limit(&v, d).is_ok();
+        let val = scrypto_decode_with_depth_limit::<ScryptoValue>(&p, d).is_ok();
+        out.push_str(&format!(" {d}:{}{}{}", if t == Ok(true) { 'T' } else if t.is_ok() { 'N' } else { 'f' }, if e { 'T' } else { 'f' }, if val { 'T' } else { 'f' }));
+    }
+    println!("{out}");
 }
 
 /// Parent side: one child per probe; a crash / wrong result is a C21 violation.
@@ -606,6 +643,30 @@ pub fn run_child_probes(sh: &mut Shard) {
             );
         } else {
             sh.count("child_probes_ok");
+        }
+    }
+    if sh.counters.get("child_probes_ok").copied().unwrap_or(0) < CHILD_PROBES.len() as u64 {
+        return; // old layout: the element types below would take the unsafe path
+    }
+    for name in DEPTH_PROBES {
+        let Ok(out) = std::process::Command::new(&exe).arg("__child").arg(name).output() else {
+            sh.notes.push(format!("child probe {name} could not be started"));
+            continue;
+        };
+        sh.eval();
+        sh.count("child_depth_probes");
+        let stdout = String::from_utf8_lossy(&out.stdout).trim().to_string();
+        let expected = "DEPTH 1:fff 2:TTT 3:TTT";
+        if stdout != expected {
+            use std::os::unix::process::ExitStatusExt;
+            sh.violation_for(
+                "C21",
+                format!("typed-depth:other:{}", name.split(':').nth(1).unwrap_or("")),
+                json!({"kind":"typed-child","probe":name,"expected_stdout":expected,"stdout":stdout.chars().take(200).collect::<String>(),
+                       "exit_code":out.status.code(),"signal":out.status.signal()}),
+            );
+        } else {
+            sh.count("child_depth_probes_ok");
         }
     }
 }
